@@ -815,6 +815,7 @@ def main(run):
                 add("exh_heap", hterm, case)
 
     # ---------------- random histories ----------------
+    PLANT = [None]
     WIDE = [False]       # search beyond the sizes of the regular generators (only after the tie (T) broke)
 
     def rand_universe(nobj, simk, honest):
@@ -918,10 +919,15 @@ def main(run):
                 t_end = time.time() + run_.scale(90, 600)
                 n = 0
                 while time.time() < t_end and not run_.oracle_viol:
-                    kind, m, simk, weights, uni, script = rand_case()
-                    if simk not in EQUIV:
-                        simk = "SimEq"
-                    D.drive(kind, m, simk, weights, uni, script, "search_wide")
+                    if n % 3 == 2 and PLANT[0] is not None:
+                        # a long antichain, then newcomers dominating many members at once
+                        kind, m, weights, uni, script = PLANT[0](14, 60)
+                        D.drive(kind, rng.randint(1, 64), "SimEq", weights, uni, script, "search_wide")
+                    else:
+                        kind, m, simk, weights, uni, script = rand_case()
+                        if simk not in EQUIV:
+                            simk = "SimEq"
+                        D.drive(kind, m, simk, weights, uni, script, "search_wide")
                     n += 1
                 run_.notes.append("wide search (maxsize up to 64, batches up to 64, universes up to 70): %d histories" % n)
             finally:
@@ -929,10 +935,10 @@ def main(run):
     run.search_fn = search
 
     # planted: an antichain is shown first, then individuals dominating several members at once
-    for it in range(run.scale(150, 3000)):
+    def plant_case(klo=2, khi=5):
         nobj = rng.choice([2, 2, 3, 4])
         weights = tuple(rng.choice([1, -1]) for _ in range(nobj))
-        k = rng.randint(2, 5)
+        k = rng.randint(klo, khi)
         uni = []
         for j in range(k):                        # antichain on the first two objectives (weighted)
             v = [0] * nobj
@@ -956,7 +962,12 @@ def main(run):
             script.append(("update", [(rng.randrange(5), rng.choice([rng.randrange(len(uni)), k + rng.randrange(len(uni) - k)]))
                                       for _ in range(rng.randint(0, 4))]))
         kind = "pf" if rng.random() < 0.7 else "hof"
-        term, hterm, case = D.drive(kind, rng.randint(1, 4), "SimEq", weights, uni, script, "plant")
+        return kind, rng.randint(1, 4), weights, uni, script
+    PLANT[0] = plant_case
+
+    for it in range(run.scale(150, 3000)):
+        kind, m, weights, uni, script = plant_case()
+        term, hterm, case = D.drive(kind, m, "SimEq", weights, uni, script, "plant")
         add("plant", term, case)
         add("plant_heap", hterm, case)
 
